@@ -395,8 +395,12 @@ impl<'a> Interp<'a> {
                     }
                 }
                 if s.start != new_first {
-                    return Err(self.fail(&pr, "retention-non-prefix", format!(
-                        "partition {pid}: deleted segment starts at {} but the earliest retained offset was {new_first}", s.start)));
+                    // a legitimate (closed, expired) deletion that leaves a hole: the
+                    // reference model only represents a retained suffix, so the rest of
+                    // this case is not interpreted (counted, never a verdict)
+                    self.out.label("model-limit-retention-hole");
+                    self.abort = true;
+                    return Ok(());
                 }
                 new_first = s.current + 1;
             }
